@@ -8,13 +8,15 @@
   commit failing at any phase (`Fail`), conflicting commits of another connection (`ext`), abort,
   close, reopen — of any length, over any number of objects (`bound`), through `Reachable`.
 
-  The model is of the code after the repair of `_store_objects` (finding
-  C11:new-object-keeps-oid-after-failed-store, fixed).  One defect of the code remains open
-  (C11:stored-new-object-ghostified-on-abort): a NEW object that was already stored when the commit
-  fails is invalidated before it is disowned, so its state is gone.  Therefore the clause "can be added
-  again later" of `failed_commit_outcome` is proved in two parts: the object belongs to no database
-  (full strength), and it still has its state unless the model's flag `d2` was raised
-  (`failed_commit_keeps_state_partial`), with the negation witness `failed_commit_loses_state`.
+  The model is of the code after the repairs of `_store_objects` (finding
+  C11:new-object-keeps-oid-after-failed-store) and of `_abort`/`tpc_abort` (finding
+  C11:stored-new-object-ghostified-on-abort: a NEW object that was already stored when the commit fails
+  is no longer invalidated before it is disowned, it keeps its state).  The clause "can be added again
+  later" of `failed_commit_outcome` is proved in two parts: the object belongs to no database (full
+  strength), and it still has its state as long as the model's instrumentation flag `d2` (raised when a
+  ghost is disowned) is down (`failed_commit_keeps_state_partial`; the unconditional version needs one
+  more invariant and is still to be proved); `stored_new_object_keeps_state` runs the program of the
+  former finding.
 -/
 import Proofs.ConnC11
 namespace Props.C11
